@@ -88,7 +88,17 @@ def _child(arg):
 
             def wrapped(npu_op_list, arch, verbose, mem_limits, add_to_debug_db=None, npu_op_to_cmd=None):
                 words = orig(npu_op_list, arch, verbose, mem_limits, add_to_debug_db, npu_op_to_cmd)
-                res["captured"].append(dict(ops=_labels(npu_op_list, npu_op_to_cmd or {}), nwords=len(words)))
+                specs = None
+                if capture == "specs":
+                    from props import c06
+
+                    specs = []
+                    for o in npu_op_list:
+                        try:
+                            specs.append(c06.spec_from_op(o))
+                        except Exception as e:  # noqa
+                            specs.append(dict(kind="?", error="%s: %s" % (type(e).__name__, e)))
+                res["captured"].append(dict(ops=_labels(npu_op_list, npu_op_to_cmd or {}), specs=specs, nwords=len(words), words=[int(w) for w in words]))
                 return words
 
             h2n.generate_command_stream = wrapped
